@@ -38,6 +38,12 @@ KNOWN_MISC = {
 }
 
 
+# \fcharsetN -> code page used by readers for \'hh and raw high bytes while that font is current
+CHARSET_CP = {0: "cp1252", 77: "mac_roman", 128: "cp932", 129: "cp949", 134: "gbk", 136: "big5", 161: "cp1253",
+              162: "cp1254", 163: "cp1258", 177: "cp1255", 178: "cp1256", 186: "cp1257", 204: "cp1251",
+              222: "cp874", 238: "cp1250"}
+
+
 def tokenize(s: str):
     """-> (tokens, lexical_errors).  token = (kind, a, b, pos);
     kinds: '{' '}' 'cw'(name,param) 'cs'(char) 'hex'(int) 'text'(str)."""
@@ -182,25 +188,35 @@ def parse(src, codepage: str = "cp1252") -> Doc:
     from_bytes = isinstance(src, (bytes, bytearray))
     s = src.decode("latin-1") if from_bytes else src
 
+    def decode_byte(o: int) -> str:
+        """one byte >= 0x80 in the code page of the CURRENT font (as Word / LibreOffice do):
+        \\fcharset1 = document default, \\fcharset2 = Symbol (private-use area), else by table"""
+        cs = None
+        f = st.ch.get("f") if st is not None else None
+        ent = fonts.get(f) if f is not None else None
+        if ent is not None:
+            for w, pv in ent["words"]:
+                if w == "fcharset":
+                    cs = pv
+        if cs == 2:
+            return chr(0xF000 + o)
+        cp = codepage if cs in (None, 1) else CHARSET_CP.get(cs, codepage)
+        try:
+            return bytes([o]).decode(cp)
+        except (UnicodeDecodeError, LookupError):
+            return "\ufffd"
+
     def hi(txt: str) -> str:
         if not from_bytes:
             return txt
         if txt.isascii():
             return txt
-        out = []
-        for ch in txt:
-            o = ord(ch)
-            if o < 0x80:
-                out.append(ch)
-            else:
-                try:
-                    out.append(bytes([o]).decode(codepage))
-                except UnicodeDecodeError:
-                    out.append("\ufffd")
-        return "".join(out)
+        return "".join(ch if ord(ch) < 0x80 else decode_byte(ord(ch)) for ch in txt)
 
     toks, errs = tokenize(s)
     errors = list(errs)
+    st = None
+    fonts: dict = {}
 
     # ---- structure ----
     depth = 0
@@ -230,7 +246,6 @@ def parse(src, codepage: str = "cp1252") -> Doc:
     if not s.startswith("{\\rtf1"):
         errors.append(("no-signature-prefix", 0))
 
-    fonts: dict = {}
     colors: list | None = None
     headers, footers = [], []
     doc_setup: dict = {}
@@ -348,10 +363,7 @@ def parse(src, codepage: str = "cp1252") -> Doc:
         if kind == "text":
             add_text(hi(a)); continue
         if kind == "hex":
-            try:
-                add_text(bytes([a]).decode(codepage))
-            except UnicodeDecodeError:
-                add_text("\ufffd")
+            add_text(chr(a) if a < 0x80 else decode_byte(a))
             continue
         if kind == "cs":
             if a == "*":
